@@ -129,10 +129,11 @@ def collide_cases(ctx, opts, tag):
         cfg = fsgen.FS[fs]
         ext = '.T' if cfg['ext'] else ''
         A, B, C = 'AA' + ext, 'BB' + ext, 'CC' + ext
-        ops = [f"P~{A}~0~U~~", f"P~{B}~0-1~U~~", f"R~{A}~{B}", f"P~{B}~0~U~~", f"R~{A}~{C}", f"R~{C}~{A}", f"R~{B}~{A}", f"D~{A}", f"R~{B}~{A}", f"R~{A}~{A}"]
+        ops = [f"P~{A}~0~U~~", f"P~{B}~0-1~U~~", f"R~{A}~{B}", f"P~{B}~0~U~~", f"P~{B.lower()}~0~U~~", f"R~{A.lower()}~{B.lower()}", f"R~{A}~{C}", f"R~{C.lower()}~{A}",
+               f"R~{B}~{A.lower()}", f"D~{A.lower()}", f"R~{B}~{A}", f"R~{A}~{A}"]
         if cfg.get('users'):
             u = ctx.rng.choice(['1', '3', '15'])
-            ops += [f"P~{u}:{A}~0~U~~", f"P~{u}:{B}~0~U~~", f"R~{u}:{A}~{u}:{B}", f"P~{C}~0~U~~", f"R~{u}:{A}~{u}:{C}", f"R~{u}:{C}~{u}:{A}", f"P~{u}:{C}~0~U~~",
+            ops += [f"P~{u}:{A}~0~U~~", f"P~{u}:{B}~0~U~~", f"R~{u}:{A}~{u}:{B}", f"P~{u}:{A.lower()}~0~U~~", f"R~{u}:{A}~{u}:{B.lower()}", f"L~{u}:{B.lower()}", f"U~{u}:{B.lower()}", f"P~{C}~0~U~~", f"R~{u}:{A}~{u}:{C}", f"R~{u}:{C}~{u}:{A}", f"P~{u}:{C}~0~U~~",
                     f"R~{C}~{B}", f"D~{u}:{B}", f"R~{u}:{A}~{u}:{B}"]
         out.append(f"fsh {tag}{i} {fs} {lab} {opts} {';'.join(ops)}")
     return out
@@ -181,6 +182,32 @@ def subdir_cases(ctx, opts, tag):
     return out
 
 
+LOCKBIG = [('dos33', 'do:5.25in', ['0-1', '0-121', '0-122', '0-250', '0,130']), ('dos32', 'd13:5.25in-13', ['0-1', '0-122']),
+           ('prodos', 'po:5.25in', ['0', '0-1', '0-200', '0,256', '0,255', '0,300', '0-2,257']), ('prodos', 'po:3.5in-ds', ['0-256', '0-300', '0-255']),
+           ('cpm2', 'do:5.25in', ['0-1', '0-16', '0-40', '0,40']), ('cpm2', 'imd:8in', ['0-16', '0-17']),
+           ('fat', 'img:5.25in-ibm-dsdd9', ['0', '0-1', '0-100'])]
+
+
+def lockbig_cases(ctx, opts, tag):
+    """a locked file of every storage form (one unit, one index, several indexes, sparse past an index boundary), in the root and
+    in a subdirectory: delete, rename and overwrite must be refused, unlock must give the file back unchanged"""
+    out = []
+    k = 0
+    for fs, lab, specs in LOCKBIG:
+        cfg = fsgen.FS[fs]
+        ext = '.T' if cfg['ext'] else ''
+        for spec in specs:
+            if (',' in spec) and not cfg['holes']:
+                continue
+            for where in (['', 'D1/'] if cfg['dirs'] else ['']):
+                ops = (["M~D1"] if where else []) + [f"P~{where}KEEP{ext}~0~U~~~v", f"P~{where}BIG{ext}~{spec}~U~~~v", f"L~{where}BIG{ext}", f"D~{where}BIG{ext}",
+                       f"R~{where}BIG{ext}~OTHER{ext}", f"P~{where}BIG{ext}~0~U~~", f"D~{where}KEEP{ext}", f"U~{where}BIG{ext}", f"R~{where}BIG{ext}~OTHER{ext}",
+                       f"L~{where}OTHER{ext}", f"D~{where}OTHER{ext}", f"U~{where}OTHER{ext}", f"D~{where}OTHER{ext}"]
+                out.append(f"fsh {tag}{k} {fs} {lab} {opts} {';'.join(ops)}")
+                k += 1
+    return out
+
+
 def dirfill_cases(ctx, opts, tag):
     return [f"fsh {tag}{i} {fs} {lab} {opts} {fsgen.dirfill_history(ctx.rng, fs, cap)}" for i, (fs, lab, cap) in enumerate(DIRFILL)]
 
@@ -211,7 +238,7 @@ def standard_run(ctx, pid, opts='r', lock_heavy=False, also=(), model_ok=True, n
         corr += subdir_cases(ctx, '-', 'ms')
         corr += [' '.join(c.split(' ')[:4] + ['-'] + c.split(' ')[5:]).replace(' k', ' m', 1) for c in corpus_cases(pid) if c.split()[2] != 'cpm3']
         run_correspondence(ctx, corr)
-    oracle = corpus_cases(pid) + collide_cases(ctx, opts, 'oc') + bigfile_cases(ctx, opts, 'ob') + subdir_cases(ctx, opts, 'os') + dirfill_cases(ctx, opts, 'od') + exactfit_cases(ctx, opts, 'oe') + gen_cases(ctx, ALL_FS, n_o, opts, False, lock_heavy=lock_heavy, tag='o')
+    oracle = corpus_cases(pid) + collide_cases(ctx, opts, 'oc') + bigfile_cases(ctx, opts, 'ob') + subdir_cases(ctx, opts, 'os') + (lockbig_cases(ctx, opts, 'ol') if lock_heavy else []) + dirfill_cases(ctx, opts, 'od') + exactfit_cases(ctx, opts, 'oe') + gen_cases(ctx, ALL_FS, n_o, opts, False, lock_heavy=lock_heavy, tag='o')
     out = run_oracle(ctx, pid, oracle, also=also)
     ctx.samples += [oracle[-1][:300] + ' -> ' + (out.get(oracle[-1].split()[1]) or '')[:300]]
     ctx.distribution['rule'] = ('a case is one operation history on one (file system, disk kind, container); distinct by text; non-trivial = it ran to its end or to an '
